@@ -106,7 +106,11 @@ def crossing_kind(ra, rb):
                         c = [(b[0] - a[0]) * (q[1] - a[1]) - (b[1] - a[1]) * (q[0] - a[0]) for q in arc]
                         A2, B2, C2 = c[0] - 2 * c[1] + c[2], 2 * (c[1] - c[0]), c[0]
                         disc = B2 * B2 - 4 * A2 * C2
-                        if A2 == 0 or disc < 0:
+                        if A2 == 0:
+                            if B2 != 0 and 0 <= -C2 / B2 <= 1 and kind == "none":  # a single rational parameter (whether it lies on the segment is not needed for the classification)
+                                kind = "rational"
+                            continue
+                        if disc < 0:
                             continue
                         # is a root inside [0,1] and on the segment?  decide with floats (classification only)
                         import math
